@@ -451,6 +451,11 @@ class Engine:
     def real_pow(self, a, e):
         """x ** e for a non-integer exponent: uninterpreted, with the monotonicity facts as path assumptions"""
         e = algebraic(Fraction(e))
+        memo = getattr(self, 'pow_memo', None)
+        if memo is None:
+            memo = self.pow_memo = {}
+        if (a.n, e) in memo:          # x ** e is a function: the same arguments give the same value on this path
+            return memo[(a.n, e)]
         r = self.fresh('rpow', 1)
         val = float(a.v) ** float(e)
         # the concrete value follows the solver's choice when it made one (stub semantics), else the float value
@@ -466,6 +471,7 @@ class Engine:
             conds.append(Node('eq', Node('eq', a.n, one), Node('eq', r.n, one)))
         for c in conds:
             self.path.append((c, True, 'define'))
+        memo[(a.n, e)] = r
         return r
 
     # ------------------------------------------------------------ property assertions
@@ -551,6 +557,7 @@ class Engine:
                 self.rounds = []
                 self.round_memo = {}
                 self.powers = []
+                self.pow_memo = {}
                 self.diverged = False
                 self.no_branch_depth = 0
                 aborted = None
@@ -588,6 +595,9 @@ class Engine:
             if len(self.path_log) < 40:
                 self.path_log.append({'inputs': {k: str(v) for k, v in self.assignment_full().items()},
                                       'branches': len(self.path), 'aborted': aborted})
+            stop = getattr(self, 'stop_after_failures', None)
+            if stop and sum(1 for f in self.failures if f.kind != 'unknown') >= stop:
+                break          # counterexamples in hand: no need to exhaust the (possibly much larger) broken path space
             if self.stats['paths'] >= self.max_paths:
                 raise Inconclusive(f"path bound {self.max_paths} reached")
             # generational expansion
